@@ -1,6 +1,6 @@
 """Bounded stand-in (NOT a proof): status / remote-index coherence over generated histories (C12, index clauses).
 Bound: 3 directories (<= 3 files each, one file shared), histories of <= 5 operations drawn from
-{push subset (closed request), push with an upload fault, external deletion of one remote object, status query}; n histories (seeded)."""
+{push subset (closed request), push with an upload fault, external deletion of one remote object / of one directory object / of everything, status query}; n histories (seeded)."""
 import logging; logging.disable(logging.CRITICAL)
 import json, os, random, sys, tempfile
 from contextlib import closing
@@ -45,7 +45,7 @@ def main(n, seed):
             hist = []
             with closing(ObjectDBIndex(os.path.join(tmp, "idx"), "remote")) as index:
                 for step in range(rnd.randint(2, 5)):
-                    op = rnd.choice(["push", "push", "push_fault", "delete", "delete_dir", "lose_src_file", "status", "status"])
+                    op = rnd.choice(["push", "push", "push_fault", "delete", "delete_dir", "delete_dir", "reset", "lose_src_file", "status", "status", "status"])
                     sel = [t for t in trees if rnd.random() < 0.6] or [trees[0]]
                     ids = {t.hash_info for t in sel} | {hi for t in sel for _, _, hi in t}
                     if op == "status" and rnd.random() < 0.5:
@@ -60,6 +60,9 @@ def main(n, seed):
                             objs = sorted(o for o in remote.all() if op == "delete" or o.endswith(".dir"))
                             if objs:
                                 os.unlink(remote.oid_to_path(rnd.choice(objs)))
+                        elif op == "reset":  # the remote is emptied behind our back; the local index survives
+                            for o in list(remote.all()):
+                                os.unlink(remote.oid_to_path(o))
                         elif op == "lose_src_file":
                             # a file object disappears from the source cache and is not in the remote either: missing on both sides
                             cand = sorted(o for o in cache.all() if not o.endswith(".dir") and not remote.exists(o))
@@ -71,6 +74,11 @@ def main(n, seed):
                             bad = {h.value for h in st.exists if h.isdir} - before
                             if bad:
                                 fails.append({"history": hist, "problem": f"directory objects reported as existing but absent at query time: {sorted(bad)}"})
+                                break
+                            # a query that names a directory validates the index first (file-only queries do not: by design)
+                            stale = set(index.dir_hashes()) - before if any(h.isdir for h in ids) else set()
+                            if stale:
+                                fails.append({"history": hist, "problem": f"after a status query the index still holds directory ids that are not in the store (a stale index is to be cleared): {sorted(stale)[:2]}"})
                                 break
                             if st.exists | st.missing != ids or st.exists & st.missing:
                                 fails.append({"history": hist, "problem": "exists/missing do not partition the queried ids"})
@@ -98,7 +106,7 @@ def main(n, seed):
                         break
             distinct.add(tuple(map(str, hist)))
     return {"evaluations": n, "distinct_nontrivial": len(distinct), "failures": fails[:2], "n_failures": len(fails),
-            "bound": "3 directories (one shared file), histories of <= 5 operations"}
+            "bound": "3 directories (one shared file), histories of <= 5 operations from push / faulty push / external deletion (object, directory object, everything) / loss of a source object / status of a subset"}
 
 
 if __name__ == "__main__":
